@@ -61,6 +61,12 @@ def run(res, tier, seed):
     inputs = make_inputs(rnd, n)
     rows, _ = common.run_harness(["c06", "-seed", seed], stdin="\n".join(json.dumps({k: v for k, v in i.items() if not k.startswith("_")}) for i in inputs) + "\n", timeout=900)
     pcg_rows, _ = common.run_harness(["c06-pcg", "-seed", seed, "-n", 400 if tier == "quick" else 3000])
+    nosrc = [pr for pr in pcg_rows if pr.get("nosrc")]
+    if nosrc:
+        res.violation({"what": "a context created with a seed has no generator of its own after Init (it then rolls on the package-level, time-seeded "
+                               "generator: not reproducible)", "seed_bytes": nosrc[0]["seed"], "seed_length": len(nosrc[0]["seed"] or []),
+                       "how": "ctx := &Context{Seed: seed_bytes}; ctx.Init(); ctx.RandSrc == nil"})
+    pcg_rows = [pr for pr in pcg_rows if not pr.get("nosrc")]
     for pr in pcg_rows:
         if (pr["hi0"], pr["lo0"]) != (pr.get("fresh_hi0", pr["hi0"]), pr.get("fresh_lo0", pr["lo0"])):
             res.violation({"what": "seeding a context that was seeded and used before does not start the sequence a fresh context starts from the same seed",
